@@ -543,6 +543,9 @@ class Interp:
             elif k == 'return':
                 return frame[0].v if frame[0].v is not None else UNIT
             elif k == 'drop':
+                dh = getattr(self, 'drop_hook', None)
+                if dh is not None and not t['pl']['p']:
+                    dh(self, body, t['pl']['l'])
                 b = t['target']
             elif k == 'assert':
                 b = t['target']
